@@ -22,6 +22,8 @@ enum Mid {
     Batch,
     OutOfRange,
     BadBuffer,
+    /// interp_into with a wrongly shaped buffer: the panic is raised inside the strategy
+    BadBufferSingle,
     GoodBuffer,
 }
 #[derive(Clone, Debug)]
@@ -60,6 +62,15 @@ fn mid_call<T: ndarray_interp::interp1d::cubic_spline::SplineNum + 'static>(s: &
             let last = wrong.len() - 1;
             wrong[last] += 1;
             run(&Ep::ArrayInto, v, Some(&wrong))
+        }
+        Mid::BadBufferSingle => {
+            let mut wrong = s.trailing();
+            if wrong.is_empty() {
+                return "not applicable".into();
+            }
+            let last = wrong.len() - 1;
+            wrong[last] += 1;
+            run(&Ep::InterpInto(2), v, Some(&wrong))
         }
         Mid::OutOfRange => {
             let mut vv = v.clone();
@@ -131,6 +142,9 @@ fn check_item(it: &Item) -> Report {
     let mut n_ok = 0;
     let mut mids_seen = std::collections::BTreeSet::new();
     for (pi, p) in paths.iter().enumerate() {
+        if chk.rep.findings.iter().any(|f| f.reproduced == Some(true)) {
+            break; // refuted: no need to decide the remaining paths of this history
+        }
         let pcs = chk.pc(&p.pc);
         let obs = match &p.result {
             Ok(Ok(o)) => o,
@@ -160,19 +174,54 @@ fn check_item(it: &Item) -> Report {
                         q.push(format!("(not (= {} {}))", chk.term(a.values[i]), chk.term(b.values[i])));
                         if let Verdict::Cex(vals) = chk.must_unsat("history-independence", &format!("path {pi}: {name} after the history returns the first answer (element {i})"), &q, &all_vars) {
                             let m = crate::c05::model_f64(&vals);
-                            let mut nv = entry::native_vals(s, 11);
-                            nv.qx[0] = *m.get("q1x").unwrap_or(&nv.qx[0]);
-                            nv.qy[0] = *m.get("q1y").unwrap_or(&nv.qy[0]);
+                            // the same axis and in-between queries as the symbolic scenario, q1 from the model, generic data
+                            let mut nv = crate::c09::native_from_sym(&v, &m, 11);
+                            if let Kind::Spline(Bc::Periodic) = s.kind {
+                                let lanes = s.lanes();
+                                for j in 0..lanes {
+                                    nv.data[(s.nx() - 1) * lanes + j] = nv.data[j];
+                                }
+                            }
                             let farn = (nv.x[nv.x.len() - 1] + 7.0, nv.y[nv.y.len() - 1] + 7.0);
                             crate::engine::core::silence_panics();
-                            let nat = std::panic::catch_unwind(std::panic::AssertUnwindSafe(|| history(it, &nv, farn)));
-                            let differs = match &nat {
-                                Ok(Ok(o)) => o.again.iter().any(|(_, r)| match (&o.first, r) {
-                                    (Ok(a), Ok(b)) => a.values.iter().zip(&b.values).any(|(x, y)| x.to_bits() != y.to_bits() && !(x.is_nan() && y.is_nan())),
-                                    (a, b) => a.is_ok() != b.is_ok(),
-                                }),
-                                _ => true,
+                            // generic data first; then the same with one data element at a time replaced by NaN / inf: a
+                            // history-dependent choice between two mathematically equal formulas only shows on such samples
+                            let mut candidates = vec![nv.clone()];
+                            for special in [f64::NAN, f64::INFINITY] {
+                                for k in 0..nv.data.len() {
+                                    let mut c = nv.clone();
+                                    c.data[k] = special;
+                                    if let Kind::Spline(Bc::Periodic) = s.kind {
+                                        continue;
+                                    }
+                                    candidates.push(c);
+                                }
+                            }
+                            let mut differs = false;
+                            let mut shown = String::new();
+                            for cand in &candidates {
+                                let nat = std::panic::catch_unwind(std::panic::AssertUnwindSafe(|| history(it, cand, farn)));
+                                let d = match &nat {
+                                    Ok(Ok(o)) => o.again.iter().any(|(_, r)| match (&o.first, r) {
+                                        (Ok(a), Ok(b)) => a.values.iter().zip(&b.values).any(|(x, y)| x.to_bits() != y.to_bits() && !(x.is_nan() && y.is_nan())),
+                                        (a, b) => a.is_ok() != b.is_ok(),
+                                    }),
+                                    _ => true,
+                                };
+                                if d {
+                                    differs = true;
+                                    shown = format!("data {:?}, q1 {:?}", cand.data, (cand.qx[0], cand.qy[0]));
+                                    break;
+                                }
+                            }
+                            let m = {
+                                let mut mm = m.clone();
+                                if !shown.is_empty() {
+                                    mm.insert("native_witness_note".into(), 0.0);
+                                }
+                                mm
                             };
+                            let _ = &shown;
                             chk.finding(&format!("C17:answer-depends-on-history:{kname}"), &format!("{}: repeating the first query through {name} gives a different value", it.name()), Json::obj().with("config", it.name()).with("model", crate::c05::model_json(&m)), Some(differs));
                         }
                     }
@@ -198,7 +247,7 @@ fn check_item(it: &Item) -> Report {
     for m in &it.hist {
         let want = match m {
             Mid::OutOfRange if !s.extrapolate => Some("InterpolateError::OutOfBounds"),
-            Mid::BadBuffer => Some("panic"),
+            Mid::BadBuffer | Mid::BadBufferSingle => Some("panic"),
             _ => None,
         };
         if let Some(w) = want {
@@ -224,6 +273,8 @@ fn items(args: &Args) -> Vec<Item> {
         let mut k = vec![Mid::Single(1), Mid::Single(2), Mid::Batch, Mid::OutOfRange, Mid::BadBuffer, Mid::GoodBuffer];
         if s.trailing().is_empty() {
             k.push(Mid::Scalar(2));
+        } else {
+            k.push(Mid::BadBufferSingle);
         }
         k
     };
